@@ -287,3 +287,56 @@ func (p c13) Run(seed int64, tier string, idx int) Outcome {
 	}
 	return o
 }
+
+// c13RaceLeg repeats the quick workload with workers built with -race: the lexer
+// goroutine and the parser communicate through an unbuffered channel and share the
+// lexer struct. Reports are collected (halt_on_error=0), counted by report block and
+// deduplicated by the pair of outermost yaccgo functions.
+func c13RaceLeg(p InprocProp, seed int64) []Outcome {
+	dir := filepath.Join(scratch(), "race-leg")
+	os.MkdirAll(dir, 0755)
+	logPrefix := filepath.Join(dir, "racelog")
+	res := runInprocWith(os.Getenv("VERIF_RACE_BIN"), []string{"GORACE=halt_on_error=0 log_path=" + logPrefix}, p, "quick", seed, dir, -1)
+	files, _ := filepath.Glob(logPrefix + ".*")
+	var all strings.Builder
+	for _, f := range files {
+		b, _ := os.ReadFile(f)
+		all.Write(b)
+	}
+	text := all.String()
+	n := strings.Count(text, "WARNING: DATA RACE")
+	inputs := 0
+	for _, o := range res.outcomes {
+		inputs += o.Counters["eval:inprocess_inputs"]
+	}
+	o := Outcome{Idx: 2000000, Status: "held", Hash: "race-leg", Nontrivial: true}
+	o.count("race_leg:inputs_run_under_race_detector", inputs)
+	o.count("race_leg:report_blocks", n)
+	o.count("race_leg:worker_restarts", res.restarts)
+	if n > 0 {
+		// dedupe by the first yaccgo frame of each of the two stacks
+		seen := map[string]int{}
+		for _, blk := range strings.Split(text, "WARNING: DATA RACE")[1:] {
+			var frames []string
+			for _, ln := range strings.Split(blk, "\n") {
+				ln = strings.TrimSpace(ln)
+				if strings.HasPrefix(ln, "github.com/acekingke/yaccgo/") {
+					frames = append(frames, strings.SplitN(ln, "(", 2)[0])
+					if len(frames) == 2 {
+						break
+					}
+				}
+			}
+			seen[strings.Join(frames, " <-> ")]++
+		}
+		o.count("race_leg:distinct_reports", len(seen))
+		if strings.Contains(text, "github.com/acekingke/yaccgo/Parser") {
+			o.Status = "violated"
+			o.Detail = fmt.Sprintf("race detector: %d report blocks (%d distinct by outermost yaccgo frames %v) between the lexer goroutine and the parser\n%s", n, len(seen), seen, trunc(text, 4000))
+		} else {
+			o.Status = "inconclusive"
+			o.Detail = "race reports outside yaccgo's packages (harness): " + trunc(text, 2000)
+		}
+	}
+	return []Outcome{o}
+}
